@@ -31,6 +31,7 @@ TrInit == Rec.initkeys
 TrN0 == Rec.n0
 Ev == Rec.ev
 Diag == "DIAG" \in DOMAIN IOEnv /\ IOEnv.DIAG = "1"
+IsSetRun == "TRACE" \in DOMAIN IOEnv /\ Rec.set = 1
 
 VARIABLES l,
           slotOf,   \* bin-array slot (address renamed 1,2,..) -> <<table, index>> it was seen to be (<<0,0>> = not yet)
@@ -73,7 +74,9 @@ Class(t) ==
               ELSE IF f[2] = NULL THEN "st_b" ELSE "st_n"
     [] p \in {"GetFwd", "HLoadNt", "ItDescend"} -> "ld_tnt"
     [] p \in {"PutCas", "XCasFwd"} -> "cas_b"
-    [] p \in {"TiFast", "LoadVal", "ItYield"} -> "ld_val"
+    [] p \in {"TiFast", "LoadVal"} -> "ld_val"
+    \* a set's iterator is the map's keys(): it hands out the key without loading the value
+    [] p = "ItYield" -> IF IsSetRun /\ CurOp(t).op = "iter" THEN "local" ELSE "ld_val"
     [] p = "TfLoadBin" -> "ld_b"
     [] p = "TfLock" -> "lock"
     [] p = "TfReval" -> IF tabs[lc.tb].bins[BinI(lc.tb, CurOp(t).k)] # lc.b THEN "unlock" ELSE "st_b"
@@ -131,7 +134,7 @@ Post(e, t) ==
 RetOk(e, t) ==
   LET o == <<t, idx[t] - 1>>  op == Prog[t][idx[t] - 1] IN
   /\ idx[t] > 1 /\ o \in DOMAIN res
-  /\ Matches(op, [ok |-> e.ok, v |-> e.v, tag |-> e.tag, ni |-> e.ni, seen |-> e.seen, pl |-> e.pl], res[o], FALSE)
+  /\ Matches(op, [ok |-> e.ok, v |-> e.v, tag |-> e.tag, ni |-> e.ni, seen |-> e.seen, pl |-> e.pl], res[o], IsSetRun)
 
 \* the same address is always the same slot of the same table, and different addresses are different slots
 SlotOk(e, t) ==
